@@ -924,7 +924,7 @@ fn bld_params(tier: Tier) -> (usize, usize, usize) {
     // (number of states, stride over the other states' specifications, stride of the third state)
     match tier {
         Tier::Quick => (2, 61, 1),
-        Tier::Thorough => (3, 211, 1777),
+        Tier::Thorough => (3, 401, 3001),
     }
 }
 
@@ -1088,6 +1088,10 @@ impl Engine for BldEngine {
                 }
             }
         }
+    }
+    fn max_group(&self, _ctx: &Ctx, _batch: usize) -> usize {
+        // every batch is millions of call sequences
+        1
     }
     fn replay(&self, _ctx: &Ctx, c: &Value, rep: &mut Report) {
         let (init, calls) = calls_from_json(c);
@@ -1276,6 +1280,9 @@ impl Engine for FanEngine {
     }
     fn num_batches(&self, _ctx: &Ctx) -> usize {
         FAN_NB
+    }
+    fn max_group(&self, _ctx: &Ctx, _batch: usize) -> usize {
+        2
     }
     fn run_batch(&self, ctx: &Ctx, batch: usize, rep: &mut Report) {
         let chars = fan_chars();
